@@ -187,9 +187,9 @@ def precise_diff(
     if tzinfo1 is not None and tzinfo1 is tzinfo2:
         # datetimes sharing a tzinfo are compared by their wall clock,
         # which is not the order of the instants inside a repeated hour
-        swap = d1.replace(tzinfo=None) - cast(
+        swap = d1.replace(tzinfo=None) - d2.replace(tzinfo=None) > cast(
             datetime.timedelta, d1.utcoffset()
-        ) > d2.replace(tzinfo=None) - cast(datetime.timedelta, d2.utcoffset())
+        ) - cast(datetime.timedelta, d2.utcoffset())
     else:
         swap = d1 > d2
 
